@@ -9,7 +9,7 @@ rm -rf $wt; git -C /repo worktree prune; git -C /repo worktree add -q --detach $
 git -C $wt apply /verif/seeded/$id/patch.diff || { echo "$id: patch failed"; git -C /repo worktree remove --force $wt; exit 2; }
 cd /verif; res=""
 for p in "$@"; do
-  out=$(VERIF_REPO=$wt ./check $p --no-evidence 2>&1); rc=$?
+  out=$(VERIF_REPO=$wt ./check $p --no-evidence ${ONLY:+--only "$ONLY"} 2>&1); rc=$?
   v=$(echo "$out" | grep -c "^VIOLATION")
   failing=$(echo "$out" | grep -E " (violation|violation-unreplayed|tool-error) " | awk '{print $3":"$4}' | tr '\n' ' ')
   res="$res $p:rc=$rc:viol=$v[$failing]"
